@@ -236,3 +236,25 @@ def run(ctx: Ctx):
     ctx.cov["traces_validated_against_impl"] += n_cases
     ctx.sample({"op": recs[0]["op"], "args": recs[0]["a"], "answer": recs[0]["ans"], "factors": list(FACT)})
     ctx.log(f"{len(recs)} configurations, {n_cases} scaled cases")
+    # ---- the whole operation table of harness/optable.py under rescaled workspaces (harness/tableinv.py)
+    from multiprocessing import Pool
+
+    from .. import tableinv
+    from ..optable import OPS
+
+    nops = len(OPS())
+    idx = list(range(nops))
+    with Pool(16) as pool:
+        results = pool.map(tableinv.work, [idx[i::32] for i in range(32)], chunksize=1)
+    ncmp = 0
+    for res in results:
+        for m in res:
+            if m["site"] == "__count__":
+                ncmp += m["n"]
+                continue
+            ctx.mismatch(m["site"], m["stratum"], m["case"], m["expected"], m["observed"])
+    if ncmp < 1000:
+        raise MachineryError(f"only {ncmp} comparisons over the operation table (vacuous)")
+    ctx.count("operation-table", ncmp)
+    ctx.cov["traces_validated_against_impl"] += ncmp
+    ctx.log(f"operation table: {nops} operations ({len(tableinv.EXCLUDED)} left out by design), {ncmp} comparisons under rescaled workspaces")
